@@ -76,11 +76,11 @@ kproof! { fn k02b_ld_mirror_24_4() { ld_mirror::<24, 4>(); } }
 /// deterministic stand-in for huffman_calc::calc_bit_lengths in the mirror lemma: both sides
 /// call it with equal arguments, so any function of (limit, argument length) that returns a vector of
 /// a plausible shape is a sound abstraction for the mirror property (not for C04/C09).
-pub static mut CBL_LIT: [u8; 8] = [0; 8];
-pub static mut CBL_LIT_N: usize = 0;
-pub static mut CBL_DIST_N: usize = 0;
-pub static mut CBL_TC: [u8; 19] = [0; 19];
-pub static mut CBL_TC_N: usize = 0;
+pub static mut CBL_LIT: [u8; 8] = [0xA5, 0x5E, 0xED, 0x31, 0xA5, 0x5E, 0xED, 0x31];
+pub static mut CBL_LIT_N: usize = 0x5EED_0000_0000_0032;
+pub static mut CBL_DIST_N: usize = 0x5EED_0000_0000_0033;
+pub static mut CBL_TC: [u8; 19] = [0x5E; 19];
+pub static mut CBL_TC_N: usize = 0x5EED_0000_0000_0035;
 pub fn stub_calc_bit_lengths(_c: HufftreeBitCalc, sym_count: &[u16], _limit: usize) -> Vec<u8> {
     unsafe {
         if sym_count.len() == 19 {
